@@ -172,7 +172,7 @@ def run(ctx, out, budget):
     if budget != "quick":
         cases += [make_case(rng, rng.randint(50, 200)) for _ in range(30)]
     run_cases(ctx, out, cases, "gen")
-    out.partial = ["end-to-end round trip over whole graphs: implementation oracle + model correspondence, no theorem"]
+    out.partial = ["outside the fragment of xmi_roundtrip_coll (see rt.applies counts) and at byte level: implementation oracle + model correspondence only"]
 
 
 def replay(ctx, payload):
